@@ -322,9 +322,12 @@ def spaces(tier, seed):
         out.append(ProductSpace('W(4,5)xopts2', S.word_dims(S.alphabet(4), 5) + [OPT_Q[8:]], eval_pipeline,
                                 bounds={'letters': S.alphabet(4), 'option_sets': len(OPT_Q[8:])},
                                 describe='integer dtype and drifting inputs'))
-        out.append(ProductSpace('W(5,5)xopts', S.word_dims(al, 5) + [OPT_Q[:8]], eval_pipeline,
-                                bounds={'letters': al, 'option_sets': len(OPT_Q)},
-                                describe='all 5-letter words x centring x samples on/off x filter/boundary deviations'))
+        out.append(ProductSpace('W(5,5)xopts', S.word_dims(al, 5) + [OPT_Q[:4]], eval_pipeline,
+                                bounds={'letters': al, 'option_sets': 4},
+                                describe='all 5-letter words over 5 letters x centring x samples on/off'))
+        out.append(ProductSpace('W(4,5)xopts1', S.word_dims(S.alphabet(4), 5) + [OPT_Q[4:8]], eval_pipeline,
+                                bounds={'letters': S.alphabet(4), 'option_sets': 4},
+                                describe='all 5-letter words over 4 letters x filter / boundary deviations'))
         out.append(ProductSpace('helpers{-1,0,2}^6', [[-1, 0, 2]] * 6, eval_helpers,
                                 bounds={'tables_per_signal': len(tiling_tables(6))},
                                 describe='durations / voltages / symmetry on every tiling table over every signal of length 6'))
@@ -342,7 +345,7 @@ def spaces(tier, seed):
                                 describe='6-letter words over letters of 8 / 6 / 10 / 7 samples: signal lengths 36..60 incl. primes '
                                          '(FFT-length dependent code paths)', bounds={'letters': alv}))
         alz = ['a', 'z', 'n', 'd']
-        out.append(ProductSpace('Wzero(4,5)xcentring', S.word_dims(alz, 5) + [[(), ('trough',), ('b1',), ('trough', 'nc2')]], eval_pipeline,
+        out.append(ProductSpace('Wzero(4,5)xcentring', S.word_dims(alz, 5) + [[(), ('trough',), ('trough', 'nc2')]], eval_pipeline,
                                 describe='words with exact-zero stretches (gated / blanked recordings): flanks that are all zeros take the '
                                          'centre-of-segment midpoint branch', bounds={'letters': alz}))
         g3 = [('peak', (2, 3)), ('trough', (3, 2)), ('trough', (1, 3))] if tier == 'quick' else [(c, sh) for c in ('peak', 'trough') for sh in ((2, 3), (3, 2), (1, 3), (2, 2))]
